@@ -20,9 +20,10 @@ class RecSock:
          STALL -> the client sends nothing more for longer than the keep-alive timeout: raises Stall (what gevent /
                   eventlet raise inside timeout_ctx(); see workers._Async.timeout_ctx)
        send_fail = index of the sendall()/send() call that raises OSError(send_errno), or None.
-       blocking_at_send records the blocking mode in force at every successful send."""
+       blocking_at_send records the blocking mode in force at every successful send.
+       shutdown_errno: shutdown() raises OSError(errno) (peer already reset the connection); close() is unaffected."""
 
-    def __init__(self, script=(), send_fail=None, send_errno=errno.EPIPE, name=("127.0.0.1", 8000)):
+    def __init__(self, script=(), send_fail=None, send_errno=errno.EPIPE, name=("127.0.0.1", 8000), shutdown_errno=None):
         self.script = list(script)
         self.out = []
         self.events = []
@@ -36,6 +37,7 @@ class RecSock:
         self.blocking = None
         self.blocking_at_send = []
         self.hooks = {}          # event name -> callable, used to inject signals at stub boundaries
+        self.shutdown_errno = shutdown_errno   # the peer is already gone: shutdown() fails (ENOTCONN), close() still works
 
     def _hook(self, ev):
         h = self.hooks.get(ev)
@@ -94,6 +96,8 @@ class RecSock:
     def shutdown(self, how):
         self.shutdowns += 1
         self.events.append("shutdown")
+        if self.shutdown_errno is not None:
+            raise OSError(self.shutdown_errno, "shutdown failed")
 
     def setblocking(self, f):
         self.blocking = f
